@@ -56,7 +56,7 @@ func srcName(v ssa.Value) string {
 
 // C14: metadata precedence and opt-out (combinator skeleton).
 func C14(p *core.Program, r *core.Report) {
-	r.Explanation = "P1: in markup.NewParser the accessor list is built in the order OpenGraph (only under err==nil && parser!=nil), schema.org, IE reading view (reachability/guard-cut on the appends). P2: opengraph.NewParser's decision list rejects (nil parser, error) when title, type, url or the image list is empty and accepts otherwise. P3: each of the ten getters of markup.Parser is a forward range over the accessor list returning the first non-empty answer of the same-named Accessor method (decision-list conformance per getter). P4: MarkupInfo returns the zero record whenever OptOut() holds; a filled record is reachable only through the OptOut()==false edge. P5: every field of the record is filled from the same-named getter/field. P6: the opt-out tag is searched among all meta elements of the whole root (name IE_RM_OFF, content true, case-insensitively) and all three parsers get that same root. P7: Apply stores Result.MarkupInfo once, as the whole record returned by the markup parser, and writes no field of it afterwards. P8: a declared OpenGraph prefix is stored only under the entry of its own namespace (og for the bare namespace, profile, article). P9: nothing below Apply rewrites the document the markup parsers read (effect analysis, shared with C10-M1). P10: og:type is in the property table before the first type-dependent parser (profile/article) runs. P11: a property is stored under a table name only if its name is that name as a whole (prefix matching only for names ending in a colon). P12: every schema.org type the microdata parser recognises is recognised under both URL schemes, http://schema.org/ and https://schema.org/ (the type table read from the code, the normalisation found on the path from the itemtype attribute to the table lookup)."
+	r.Explanation = "P1: in markup.NewParser the accessor list is built in the order OpenGraph (only under err==nil && parser!=nil), schema.org, IE reading view (reachability/guard-cut on the appends). P2: opengraph.NewParser's decision list rejects (nil parser, error) when title, type, url or the image list is empty and accepts otherwise. P3: each of the ten getters of markup.Parser is a forward range over the accessor list returning the first non-empty answer of the same-named Accessor method (decision-list conformance per getter). P4: MarkupInfo returns the zero record whenever OptOut() holds; a filled record is reachable only through the OptOut()==false edge. P5: every field of the record is filled from the same-named getter/field. P6: the opt-out tag is searched among all meta elements of the whole root (name IE_RM_OFF, content true, case-insensitively) and all three parsers get that same root. P7: Apply stores Result.MarkupInfo once, as the whole record returned by the markup parser, and writes no field of it afterwards. P8: a declared OpenGraph prefix is stored only under the entry of its own namespace (og for the bare namespace, profile, article). P9: nothing below Apply rewrites the document the markup parsers read (effect analysis, shared with C10-M1). P10: og:type is in the property table before the first type-dependent parser (profile/article) runs. P11: a property is stored under a table name only if its name is that name as a whole (prefix matching only for names ending in a colon). P12: every schema.org type the microdata parser recognises is recognised under both URL schemes, http://schema.org/ and https://schema.org/ (the type table read from the code, the normalisation found on the path from the itemtype attribute to the table lookup). P13: C04-V5 shared - the text values the sources read from elements are InnerText renderings, whose collector tests the visibility of every element, the one asked for included, and whose results are only made from what the collector gathered."
 	r.NotCovered = "the three parsers' internals (nested microdata, type dependent OpenGraph properties, IE meta tags), i.e. what each source reports; only the combination of the sources is decided."
 
 	// ---- P1
@@ -369,6 +369,10 @@ func C14(p *core.Program, r *core.Report) {
 
 	// ---- P12
 	checkSchemaTypeSchemes(p, r, "P12")
+	// ---- P13: the text values the IE-reader and schema.org sources read from the page (captions,
+	// bylines, item properties) are InnerText renderings: hidden parts are left out only because
+	// InnerText's collector tests every element, the one asked for included (C04-V5 shared)
+	checkInnerTextCollector(p, r, "P13")
 
 	// ---- P9: what the three markup parsers read is the page as the caller gave it: nothing below
 	// Apply rewrites the caller's document (the converter works on a clone) - effect analysis,
